@@ -138,6 +138,8 @@ SPEC = TreeSpec(
     ),
     profile=PROFILE,
     check=check,
+    size_sweep=True,
+    sweep_extra=(b"\x01\x00\x00", 0),
     nontrivial=nontrivial,
     extra=_extra,
     sample_of=sample_of,
